@@ -465,6 +465,8 @@ def unfuse_legs(a, axes) -> 'Tensor':
         ui += a.mfs[mi][0]
     if axes_hf:
         meta, struct, slices, nlegs, hfs = _meta_unfuse_hard(a.config, a.struct, a.slices, tuple(axes_hf), tuple(a.hfs))
+        nlegs_hf = dict(zip(sorted(axes_hf), nlegs))  # nlegs follows the storage order of legs; axes_mf, axes_uf follow the logical order
+        nlegs = tuple(nlegs_hf[hi] for hi in axes_hf)
         data = _unmerge(a.config, a._data, meta)
 
         for unfused, n in zip(nlegs[::-1], axes_mf[::-1]):
